@@ -319,6 +319,14 @@ def compare(ip, op, a, b, st, node=None):
         pos = t is ast.In
         res = contains(ip, a, b, st, line)
         return [(r == pos, s) for r, s in res]
+    # an opaque scalar compared with an integer constant behaves like a symbol named after it
+    if t in _FLIP and t not in (ast.Eq, ast.NotEq):
+        if isinstance(a, Opaque) and a.kind in (None, 'int') and isinstance(b, Const) and \
+                isinstance(b.value, int) and not isinstance(b.value, bool) and not isinstance(a, SliceV):
+            a = mk_sym(st, a.d, -INF, INF, ('opaque', [a]))
+        elif isinstance(b, Opaque) and b.kind in (None, 'int') and isinstance(a, Const) and \
+                isinstance(a.value, int) and not isinstance(a.value, bool) and not isinstance(b, SliceV):
+            b = mk_sym(st, b.d, -INF, INF, ('opaque', [b]))
     # numeric comparison of a symbol with a constant: interval refinement
     if isinstance(b, Sym) and isinstance(a, Const) and t in _FLIP:
         a, b, t = b, a, _FLIP[t]
@@ -464,6 +472,12 @@ def slice_(ip, b, lo, hi, step, st, node=None):
         except Exception:
             pass
     d = '%s[%s:%s]' % (b.desc(), '' if cv(lo) is None else lo.desc(), '' if cv(hi) is None else hi.desc())
+    if isinstance(b, BytesV) and all(isinstance(x, Const) for x in (lo, hi, step)) and step.value is None \
+            and b.parts and all(p[0] == 'lit' for p in b.parts):
+        try:
+            return Const(b''.join(p[1] for p in b.parts)[lo.value:hi.value])
+        except Exception:
+            pass
     if isinstance(b, BytesV) and all(isinstance(x, Const) for x in (lo, hi, step)) and step.value is None:
         bl, bh = bytes_len(b, st)
         if bl == bh and bl != INF:
@@ -763,6 +777,11 @@ def _p_struct_unpack(ip, args, kwargs, st, line, node):
 
 
 def _unpack_ok(ip, args, st, line, fl):
+    if isinstance(args[0], Const) and isinstance(args[1], Const) and isinstance(args[1].value, bytes):
+        try:
+            return [('val', Const(_struct.unpack(args[0].value, args[1].value)), st)]
+        except Exception:
+            return [('raise', Opaque('struct.error'), st)]
     if True:
         if True:
             st.counter += 1
@@ -943,6 +962,9 @@ def _p_ceil(ip, args, kwargs, st, line, node):
 
 
 def _p_b2a_hex(ip, args, kwargs, st, line, node):
+    if getattr(ip, 'record_hexlify', False):
+        st.actions.append(Action('call', 'binascii', 'b2a_hex', args, None, line,
+                                 getattr(st.cur_func(), 'qualname', None)))
     if args and bytes_len(args[0], st) == (0, 0):
         return [('val', Const(b''), st)]
     return [('val', Opaque('b2a_hex(%s)' % ', '.join(a.desc() for a in args), 'bytes'), st)]
